@@ -76,6 +76,10 @@ type PathState struct {
 	pending   []*pendingGo
 	parked    []*coro
 	nextTid   int
+	conc        *coro
+	concBudget  int
+	concDone    bool
+	concJoining bool
 	trace     []string
 	concPos   int
 	env       map[string]Value // scratch for models (per-path)
